@@ -181,7 +181,7 @@ func parseSubstituteArgs(f slip.Object, s *slip.Scope, args slip.List, depth int
 	if v, ok := slip.GetArgsKeyValue(kargs, slip.Symbol(":count")); ok {
 		switch tv := v.(type) {
 		case slip.Fixnum:
-			sr.count = int(tv)
+			sr.count = max(int(tv), 0) // a negative count behaves like zero
 		case nil:
 			// leave as -1 for now
 		default:
@@ -197,6 +197,9 @@ func (sr *subRep) replace(seq slip.List) slip.Object {
 	}
 	if sr.count < 0 {
 		sr.count = len(seq)
+	}
+	if sr.count == 0 {
+		return seq
 	}
 	if sr.rev {
 		for i := sr.end - 1; sr.start <= i; i-- {
@@ -222,11 +225,12 @@ func (sr *subRep) maybe(seq slip.List, i int) bool {
 	if sr.tc != nil {
 		if sr.tc.Call(sr.s, slip.List{sr.old, v}, sr.depth) != nil {
 			seq[i] = sr.rep
+			sr.count--
 		}
 	} else if slip.ObjectEqual(sr.old, v) {
 		seq[i] = sr.rep
+		sr.count--
 	}
-	sr.count--
 	return sr.count <= 0
 }
 
@@ -236,6 +240,9 @@ func (sr *subRep) replaceBytes(seq []byte) slip.Object {
 	}
 	if sr.count < 0 {
 		sr.count = len(seq)
+	}
+	if sr.count == 0 {
+		return slip.Octets(seq)
 	}
 	if sr.rev {
 		for i := sr.end - 1; sr.start <= i; i-- {
@@ -261,10 +268,11 @@ func (sr *subRep) maybeByte(seq []byte, i int) bool {
 	if sr.tc != nil {
 		if sr.tc.Call(sr.s, slip.List{sr.old, v}, sr.depth) != nil {
 			seq[i] = byte(sr.rep.(slip.Octet))
+			sr.count--
 		}
 	} else if slip.ObjectEqual(sr.old, v) {
 		seq[i] = byte(sr.rep.(slip.Octet))
+		sr.count--
 	}
-	sr.count--
 	return sr.count <= 0
 }
